@@ -33,6 +33,8 @@ def generate(tier, seed):
     nmm = 60 if tier == "quick" else 2000
     for k in range(nmm):
         cases.append({"kind": "multimodel", "seed": "%d:mm:%d" % (seed, k), "cost": 15})
+    for k in range(20 if tier == "quick" else 600):
+        cases.append({"kind": "sametype", "seed": "%d:st:%d" % (seed, k), "cost": 15})
     return cases
 
 
@@ -106,6 +108,13 @@ def run_case(case, tier):
     elif case["kind"] == "cutout":
         recs = sources.random_small_structure(rng, 80, 900)
         optset = None
+    elif case["kind"] == "sametype":
+        from .. import multiconf
+        recs, _d = multiconf.build_same_type_mutant(rng)
+        if recs is None:
+            return util.finish(case, viol, counts, classes, False, {"kind": "sametype"}, inconclusive="no GLU / GLN in the cut-outs tried")
+        optset = rng.choice(("none", "-d", "params"))
+        classes.append("same-type-mutant-in-one-model")
     else:
         if rng.random() < 0.5:
             recs = build_multimodel(rng)
